@@ -348,6 +348,7 @@ struct Config {
     detail::method_catalog* methods;
     std::vector<std::uintptr_t>* dispatch_data;
     void (*reset)();
+    void (*reset_runtime)(); // tables only, as in a fresh process
     UpdateOutcome (*update)();
     // dynamic lookup exactly as the policy does it (may throw through the
     // error route)
@@ -366,6 +367,7 @@ struct Config {
     // handler control (vectored_error / call_error): mode 0 = throw a copy,
     // 1 = return (library must abort), 2 = library default
     void (*set_handler_mode)(int);
+    int* deliveries; // entries into this policy's own handler
     void (*decode)(DecodeData&);
     type_id static_type_obj; // static_type<Obj>() of the policy
 };
@@ -477,6 +479,7 @@ struct Impl {
     }
 
     static inline int handler_mode = 0;
+    static inline int deliveries = 0;
 
     static void reset() {
         using namespace policy;
@@ -485,6 +488,12 @@ struct Impl {
         for (auto& d : self().pool) {
             d.info->specs.clear();
         }
+        reset_runtime();
+        set_handler_mode(0);
+    }
+
+    static void reset_runtime() {
+        using namespace policy;
         Pol::dispatch_data.clear();
         if constexpr (has_facet<Pol, external_vptr>) {
             Pol::vptrs.clear();
@@ -502,7 +511,6 @@ struct Impl {
         if constexpr (has_facet<Pol, runtime_checks>) {
             Pol::control.clear();
         }
-        set_handler_mode(0);
     }
 
     template<class P, typename = void>
@@ -521,6 +529,7 @@ struct Impl {
     static void call_error_thrower(
         const method_call_error& error, std::size_t arity, type_id* ids) {
         ++g_error_deliveries;
+        ++deliveries;
         Thrown t;
         t.rec.kind = ErrorRec::call_error;
         t.rec.status = error.code;
@@ -556,7 +565,17 @@ struct Impl {
             if (mode == 0) {
                 Pol::error = [](const error_type& ev) {
                     ++g_error_deliveries;
+                    ++deliveries;
                     throw ev;
+                };
+            } else if (mode == 3) {
+                // a second, distinguishable throwing handler
+                Pol::error = [](const error_type&) {
+                    ++g_error_deliveries;
+                    ++deliveries;
+                    Thrown t;
+                    t.rec.kind = ErrorRec::other_exception;
+                    throw t;
                 };
             } else if (mode == 1) {
                 Pol::error = [](const error_type&) { ++g_error_deliveries; };
@@ -603,6 +622,7 @@ struct Impl {
         c.methods = &Pol::methods;
         c.dispatch_data = &Pol::dispatch_data;
         c.reset = &reset;
+        c.reset_runtime = &reset_runtime;
         c.update = &update;
         c.dynamic_vptr = [](const Obj& o) -> const std::uintptr_t* {
             return Pol::dynamic_vptr(o);
@@ -652,6 +672,7 @@ struct Impl {
         c.vp_vptr = [](void* p) { return static_cast<VP*>(p)->_vptr(); };
         c.vp_get = [](void* p) { return static_cast<VP*>(p)->get(); };
         c.set_handler_mode = &set_handler_mode;
+        c.deliveries = &deliveries;
         c.decode = [](DecodeData& d) { decode_dispatch_data<Pol>(d); };
         c.static_type_obj = Pol::template static_type<Obj>();
         configs().push_back(&c);
